@@ -11,6 +11,7 @@ import z3
 
 from .heap import DEFPOW, FACT, POW
 from .values import (
+    INF,
     NAN,
     TAG_NPFLOAT,
     TAG_PYFLOAT,
@@ -46,6 +47,31 @@ TWO63 = 2**63
 def install(I):
     E = I.external
 
+    def concrete_pow_facts(I, av, bv):
+        """For NUMERAL arguments the real power is known: state where it is defined, and its value when the
+        exponent is an integer (exact rational arithmetic).  True facts about pow, not assumptions."""
+        a_, b_ = z3.simplify(av), z3.simplify(bv)
+        if not (z3.is_rational_value(a_) and z3.is_rational_value(b_)):
+            return
+        from fractions import Fraction
+
+        a = Fraction(a_.numerator_as_long(), a_.denominator_as_long())
+        b = Fraction(b_.numerator_as_long(), b_.denominator_as_long())
+        key = ("powfacts", str(a), str(b))
+        if key in I.ps.memo:
+            return
+        I.ps.memo[key] = True
+        if b.denominator == 1:
+            defined = not (a == 0 and b < 0)
+        else:
+            defined = a > 0 or (a == 0 and b > 0)
+        I.ps.assume(DEFPOW(av, bv) if defined else z3.Not(DEFPOW(av, bv)))
+        if defined and b.denominator == 1 and abs(b) <= 4096 and (a.denominator == 1 or abs(b) <= 64):
+            v = a ** int(b)
+            I.ps.assume(POW(av, bv) == z3.RealVal(str(v)))
+        elif defined and a in (0, 1):
+            I.ps.assume(POW(av, bv) == z3.RealVal(str(a)))
+
     def np_power(I, args, kw):
         a, b = args
         if a is NAN or b is NAN:
@@ -53,6 +79,7 @@ def install(I):
         ta, tb = tag_of(a), tag_of(b)
         both_int = b_and(b_not(ta[0]), b_not(tb[0]))
         av, bv = zreal(a), zreal(b)
+        concrete_pow_facts(I, av, bv)
         if I.truth(zbool(both_int), "np.power:ints"):
             if I.truth(bv < 0, "np.power:negexp"):
                 I.raise_("ValueError", "Integers to negative integer powers are not allowed.", site="np.power")
@@ -62,6 +89,9 @@ def install(I):
             I.ps.assume(DEFPOW(av, bv))
             return Num(r, (False, True))
         if not I.truth(DEFPOW(av, bv), "np.power:def"):
+            # IEEE pow: a pole (0 to a negative power) is an infinity, a negative base with a fractional exponent NaN
+            if I.truth(z3.And(av == 0, bv < 0), "np.power:pole"):
+                return INF
             return NAN
         return Num(POW(av, bv), TAG_NPFLOAT)
 
@@ -73,6 +103,7 @@ def install(I):
             return NAN
         ta, tb = tag_of(a), tag_of(b)
         av, bv = zreal(a), zreal(b)
+        concrete_pow_facts(I, av, bv)
         isnp = b_or(ta[1], tb[1])
         if I.truth(zbool(isnp), "pow:np"):
             return np_power(I, args, kw)
